@@ -24,6 +24,8 @@ import (
 // of race freedom.
 
 type raceAcc struct {
+	seq    int            // position in the execution
+	acq    map[string]int // sync objects this tag had acquired before the access -> position of the latest acquire
 	ptr    bool // the location holds a pointer-like value (pointer, slice, map, interface, string, func, chan)
 	tag    int
 	write  bool
@@ -37,11 +39,14 @@ type raceState struct {
 	limitID int // objects with ID below this existed before the first bracket
 	acc     map[string][]raceAcc
 	held    map[*Obj]int
+	seq     int
+	acq     map[int]map[string]int   // per tag: sync object -> position of its latest acquire
+	rels    map[int]map[string][]int // per tag: sync object -> positions of its releases
 }
 
 func (e *Engine) raceBegin(tag int) {
 	if e.race == nil {
-		e.race = &raceState{acc: map[string][]raceAcc{}, held: map[*Obj]int{}}
+		e.race = &raceState{acc: map[string][]raceAcc{}, held: map[*Obj]int{}, acq: map[int]map[string]int{}, rels: map[int]map[string][]int{}}
 	}
 	if e.race.limitID == 0 {
 		e.race.limitID = e.nextObj + 1
@@ -55,10 +60,36 @@ func (e *Engine) raceEnd() {
 	}
 }
 
+// raceSync records an acquire (a lock acquisition, an atomic read) or a release (an unlock, an atomic
+// write) of the synchronisation object `key` by the operation whose bracket is open. An access x of
+// one operation happens before an access y of the other when the first operation released some
+// object after x and the second acquired the same object, later, before y (hand-over through a lock
+// or an atomic variable: a stream that one caller puts into the pool and the other one takes out).
+func (e *Engine) raceSync(key string, acquire, release bool) {
+	r := e.race
+	if r == nil || r.tag == 0 || e.hookBusy {
+		return
+	}
+	r.seq++
+	if acquire {
+		if r.acq[r.tag] == nil {
+			r.acq[r.tag] = map[string]int{}
+		}
+		r.acq[r.tag][key] = r.seq
+	}
+	if release {
+		if r.rels[r.tag] == nil {
+			r.rels[r.tag] = map[string][]int{}
+		}
+		r.rels[r.tag][key] = append(r.rels[r.tag][key], r.seq)
+	}
+}
+
 func (e *Engine) raceLock(o *Obj, d int) {
 	if e.race == nil {
 		return
 	}
+	e.raceSync(o.String(), d > 0, d < 0)
 	e.race.held[o] += d
 	if e.race.held[o] <= 0 {
 		delete(e.race.held, o)
@@ -98,7 +129,12 @@ func (e *Engine) raceRecord(alt PtrAlt, typ types.Type, write bool, where string
 			return
 		}
 	}
-	r.acc[key] = append(r.acc[key], raceAcc{ptr: pointerLike(typ) || o.Kind == KMap, tag: r.tag, write: write, atomic: e.inAtomicAcc, locks: locks, where: where})
+	r.seq++
+	acq := map[string]int{}
+	for k, v := range r.acq[r.tag] {
+		acq[k] = v
+	}
+	r.acc[key] = append(r.acc[key], raceAcc{seq: r.seq, acq: acq, ptr: pointerLike(typ) || o.Kind == KMap, tag: r.tag, write: write, atomic: e.inAtomicAcc, locks: locks, where: where})
 }
 
 func (e *Engine) raceCheck(st *State, id string, site string) {
@@ -127,7 +163,7 @@ func (e *Engine) raceCheck(st *State, id string, site string) {
 						common = true
 					}
 				}
-				if common {
+				if common || r.ordered(a, b) || r.ordered(b, a) {
 					continue
 				}
 				if !a.ptr && !b.ptr {
@@ -165,6 +201,22 @@ func pointerLike(t types.Type) bool {
 	case *types.Struct:
 		for i := 0; i < u.NumFields(); i++ {
 			if pointerLike(u.Field(i).Type()) {
+				return true
+			}
+		}
+	}
+	return false
+}
+
+// ordered: x happens before y through a release by x's operation after x and a later acquire of the
+// same object by y's operation before y.
+func (r *raceState) ordered(x, y raceAcc) bool {
+	if x.seq >= y.seq {
+		return false
+	}
+	for k, acqSeq := range y.acq {
+		for _, rel := range r.rels[x.tag][k] {
+			if rel > x.seq && rel < acqSeq {
 				return true
 			}
 		}
